@@ -222,7 +222,7 @@ def run(ctx):
             o = {"lat": E_(lat), "lon": E_(lon), "latf": lat, "lonf": lon, "zonearg": zone, "args": "float",
                  "ell": {"name": rec["name"], "a": rec["a"], "invf": rec["invf"]},
                  "prj": {"name": pname, "fe": E_(P.falseeast), "fn": E_(P.falsenorth), "k0": E_(P.cmscale), "zw": int(P.zonewidth),
-                         "cm1": int(P.initialcm), "isg": pname == "isg"},
+                         "cm1": int(P.initialcm), "isg": pname == "isg", "zwx": E_(P.zonewidth), "cm1x": E_(P.initialcm)},
                  "lonround": E_(lonround), "convround": E_(lonround + 4e-10), "n0": rec["n0"],
                  "fwd": {"hemi": hemi, "zone": zone, "e": E_(e), "n": E_(n), "psf": E_(psf), "conv": E_(conv), "hex": ""},
                  "inv": {"lat": [0], "lon": [0], "psf": [0], "conv": [0], "exc": "not recorded"}}
